@@ -166,7 +166,8 @@ def runOutputTail (timerFired : Bool) (ready : Bool) (output : Int) (bpOutput : 
 /-- generated from async_producer.go (*brokerProducer).rollOver -/
 def rollOver (timer : Int) (timerFired : Bool) (buffer : Int) (nilTimer : Int) (fresh : Int) : Int × Bool × Int :=
   let timer_v1 : Int := nilTimer
+  let timerFired_v1 : Bool := false
   let buffer_v1 : Int := fresh
-  (timer_v1, timerFired, buffer_v1)
+  (timer_v1, timerFired_v1, buffer_v1)
 
 end Gen.C16
